@@ -19,7 +19,9 @@ BINDINGS = [("ex", "http://a/"), ("", "urn:x"), ("é", "http://é/#"), ("n", "ht
             # another prefix for namespaces that rdflib binds by default (dcterms:, xsd:)
             ("dct", "http://purl.org/dc/terms/"), ("xs", "http://www.w3.org/2001/XMLSchema#"),
             # a namespace without '/' or '#' (terms below live in it and in "urn:x")
-            ("u", "urn:uuid:")]
+            ("u", "urn:uuid:"),
+            # labels that end in a colon (next to the same label without it / the empty label)
+            ("ex:", "http://c.example/"), (":", "http://d.example/")]
 # terms inside separator-less namespaces; local parts begin with characters of the namespace
 URN_TRIPLE = (I("urn:uuid:d9b2"), I("urn:xurn:x"), I("urn:uuid:9d"))
 NBASE = 5
@@ -43,7 +45,8 @@ def binding_lists(maxlen: int) -> list:
         for y in range(NBASE):
             if y != x:
                 out.append((x, y, alias))
-    out += [(7,), (8,), (7, 0), (0, 8), (7, 8), (9,), (1, 9)]
+    out += [(7,), (8,), (7, 0), (0, 8), (7, 8), (9,), (1, 9), (10,), (0, 10), (11, 1),
+            (10, 11)]
     return out
 
 
